@@ -138,6 +138,64 @@ def check_group(g):
                     build_x(ref[1]), expr_simp(build_x(ref[1])), build_x(d), r), {'d1': ref[1], 'd2': d, 'xdesc': None})
     return n, None
 
+def contexts(w):
+    """enclosing constructors: a permuted operand list must also simplify identically BELOW another node (visit() of every node class)"""
+    a = ('id', 'q%d' % w, w)
+    c1 = ('id', 'c1', 1)
+    out = [('cond-else', lambda d: ('cond', c1, a, d)), ('cond-then', lambda d: ('cond', c1, d, a)),
+           ('minus', lambda d: ('op', '-', (a, d))), ('neg', lambda d: ('op', '-', (d,))), ('shift', lambda d: ('op', '<<', (d, ('int', w, 1)))),
+           ('assoc-other', lambda d: ('op', '^', (('op', '-', (d,)), a)))]
+    if w > 1:
+        out.append(('cond-cond', lambda d: ('cond', ('slice', d, 0, 1), a, a if False else ('int', w, 0))))
+        out.append(('slice', lambda d: ('slice', d, 0, max(1, w // 2))))
+    if w == 32:
+        out.append(('mem', lambda d: ('mem', d, 8)))
+        out.append(('mem-in-op', lambda d: ('op', '+', (('mem', d, 32), a))))
+    if w in (8, 16, 32):
+        out.append(('compose', lambda d: ('compose', ((d, 0, w), (('int', w, 0), w, 2 * w)))))
+    return out
+
+def dwidth_x(d):
+    from bounded import gen
+    return d[3] if d[0] == 'smem' else gen.dwidth(d)
+
+def check_group_ctx(g):
+    """the same, below each enclosing constructor (two orders and one nesting suffice per context)"""
+    from miasmx.expression.expression_helper import expr_simp
+    op, xs = g
+    w = dwidth_x(xs[0])
+    perms = list(itertools.permutations(xs))
+    variants = [('op', op, tuple(perms[0])), ('op', op, tuple(perms[-1]))]
+    if len(xs) >= 3:
+        variants.append(('op', op, (perms[1][0], ('op', op, tuple(perms[1][1:])))))
+    n = 0
+    for cname, ctx in contexts(w):
+        ref = None
+        for d in variants:
+            n += 1
+            t = ctx(d)
+            r = expr_simp(build_x(t))
+            key = (undesc_x(r), str(r))
+            if ref is None: ref = (key, t)
+            elif key != ref[0]:
+                return n, ('perm-' + cname, 'operand order/nesting below %s changes the simplified form: %s -> %s but %s -> %s' % (
+                    cname, build_x(ref[1]), expr_simp(build_x(ref[1])), build_x(t), r), {'d1': ref[1], 'd2': t, 'xdesc': None})
+    return n, None
+
+def idem_extra():
+    """concatenations of adjacent slices of one source (the slice-merging path), with and without further parts"""
+    out = []
+    for w in (16, 32):
+        x = ('id', 'x%d' % w, w); y = ('id', 'y16', 16); z8 = ('id', 'z8', 8)
+        h = w // 2
+        out.append(('compose', ((('slice', x, 0, h), 0, h), (('slice', x, h, w), h, w), (y, w, w + 16))))
+        out.append(('compose', ((y, 0, 16), (('slice', x, 0, h), 16, 16 + h), (('slice', x, h, w), 16 + h, 16 + w))))
+        out.append(('compose', ((('slice', x, 0, 8), 0, 8), (('slice', x, 8, 16), 8, 16), (z8, 16, 24))))
+        if h > 8: out.append(('compose', ((('slice', x, 0, 8), 0, 8), (('slice', x, 8, h), 8, h), (('slice', x, h, w), h, w))))
+        out.append(('op', '^', (('compose', ((('slice', x, 0, 8), 0, 8), (('slice', x, 8, 16), 8, 16))), ('id', 'w16', 16))))
+        out.append(('compose', ((('slice', x, 4, 8), 0, 4), (('slice', x, 8, 12), 4, 8), (z8, 8, 16))))
+    return out
+
 def check_idem(d):
     from miasmx.expression.expression_helper import expr_simp
     r1 = expr_simp(build_x(d))
@@ -156,9 +214,12 @@ def _work(job):
         try:
             if kind == 'perm':
                 n, f = check_group(it)
+                if f is None:
+                    n2, f = check_group_ctx(it)
+                    n += n2
                 out['n'] += n
                 if f is None: out['ok'] += 1
-                else: out['fails'].append(('perm[%s over %s]' % (it[0], ','.join(dstr_x(x) for x in it[1])),) + f)
+                else: out['fails'].append(('%s[%s over %s]' % (f[0] if f[0].startswith('perm-') else 'perm', it[0], ','.join(dstr_x(x) for x in it[1])), 'perm') + f[1:])
             else:
                 out['n'] += 1
                 f = check_idem(it)
@@ -315,6 +376,7 @@ def main(argv):
     trees = C05.corpus(tier, seed)
     if tier == 'quick':
         trees = trees[::3]
+    trees = idem_extra() + trees
     jobs = [('perm', groups[i:i + 40]) for i in range(0, len(groups), 40)] + [('idem', trees[i:i + 400]) for i in range(0, len(trees), 400)]
     with multiprocessing.get_context('fork').Pool(min(16, os.cpu_count() or 4)) as pool:
         results = pool.map(_work, jobs, chunksize=1)
